@@ -294,7 +294,7 @@ def p1_predicate(chk, repo, L):
         d.items["section"] = inner
         d.items["records"] = ListLit([DictS({n: Const(3) for n in names + keep})])
         return d
-    I = Interp(repo)
+    I = Interp(repo, strict=False)  # abstract evaluation on input classes (blank / filled), not on concrete values
     f = I.lookup("remove_spares", I.module_scope(tr))
     try:
         out = I.call(f, [mapping()], {})
@@ -414,7 +414,7 @@ def header_sentinels(chk, repo, L):
         return h
 
     def run_on(values):
-        I = Interp(repo)
+        I = Interp(repo, strict=False)  # abstract evaluation on input classes (blank / filled), not on concrete values
         f = I.lookup("extract_attrs", I.module_scope(md))
         try:
             out = I.call(f, [header(values)], {})
